@@ -54,6 +54,17 @@ type CacheCase struct {
 	// it, both compared with the models (Has is not a use, so the history is
 	// the same with and without the probes).
 	Probe bool `json:"probe,omitempty"`
+	// BigLimit, when not 0, is the limit handed to cache.New (the whole int64
+	// range: 2^31, 2^32, 2^53, 2^62, MaxInt64 and their neighbours) and Unit the
+	// factor of the size selectors: a Put of selector s reports the size s*Unit
+	// (+ a few low bits chosen by the key) instead of s.  Limit keeps its role
+	// as the scale of the key space.  Sizes are just numbers the size function
+	// returns, so this costs nothing.  The interpreter keeps every sum the
+	// cache has to form (size of the present entries + size of the new value)
+	// within int64: see fitBig.  Needs a value kind that carries an int64 size
+	// (not the length-sized ones).
+	BigLimit int64 `json:"bigLimit,omitempty"`
+	Unit     int64 `json:"unit,omitempty"`
 }
 
 type pair struct {
@@ -130,6 +141,14 @@ func (r *refLRU) get(k int) (Val, bool) {
 	return e.v, true
 }
 func (r *refLRU) has(k int) bool { return r.idx(k) >= 0 }
+
+// without is the total size of the entries other than the one of key k.
+func (r *refLRU) without(k int) int64 {
+	if i := r.idx(k); i >= 0 {
+		return r.size - r.sizeOf(r.list[i].v)
+	}
+	return r.size
+}
 func (r *refLRU) remove(k int) (bool, []pair) {
 	i := r.idx(k)
 	if i < 0 {
@@ -232,6 +251,12 @@ func (d *devLRU) get(k int) (Val, bool) {
 	return out.val, true
 }
 func (d *devLRU) has(k int) bool { return d.pos(k) >= 0 }
+func (d *devLRU) without(k int) int64 {
+	if p := d.pos(k); p >= 0 {
+		return d.size - d.sizeOf(d.h.Data[p].val)
+	}
+	return d.size
+}
 func (d *devLRU) remove(k int) (bool, []pair) {
 	p := d.pos(k)
 	if p < 0 {
@@ -310,6 +335,10 @@ func (c CacheCase) unit() bool {
 // the value kinds whose size is their length (see kinds.go), else 1.
 func (c CacheCase) valFor(step int, op COp, scale int64) Val {
 	v := Val{ID: step + 1, Size: 1}
+	if c.BigLimit != 0 && !c.unit() {
+		v.Size = c.bigSize(op)
+		return v
+	}
 	if !c.unit() {
 		switch {
 		case op.S%11 == 9:
@@ -327,6 +356,49 @@ func (c CacheCase) valFor(step int, op COp, scale int64) Val {
 		}
 	}
 	return v
+}
+
+// bigSize is the size of the value of a Put in a case with BigLimit: selector
+// 9 is exactly the limit, 10 more than the limit (a refused Put; the limit
+// itself when the limit is MaxInt64: nothing is larger), 0 is size 0, the
+// others s*Unit (saturating) plus 0..4 low bits that depend on the key and the
+// selector, so that the size function is not constant per key and that the
+// sizes are no round numbers.
+func (c CacheCase) bigSize(op COp) int64 {
+	limit := c.BigLimit
+	switch s := int64(op.S % 5); {
+	case op.S%11 == 9:
+		return limit
+	case op.S%11 == 10 && op.S%2 == 0:
+		return max(limit, math.MaxInt64-int64(op.S%3))
+	case op.S%11 == 10:
+		return limit + min(math.MaxInt64-limit, 1+int64(op.S%3))
+	case s == 0:
+		return 0
+	default:
+		u := max(c.Unit, 1)
+		low := int64((op.K*7 + op.S) % 5)
+		if u > (math.MaxInt64-low)/s {
+			return math.MaxInt64
+		}
+		return s*u + low
+	}
+}
+
+// fitBig keeps a Put inside the arithmetic the cache is specified for: a value
+// whose own size exceeds the limit is refused before anything is added up, but
+// for one that fits the cache forms "size of the other entries + size of the
+// value", and with limits above MaxInt64/2 that sum can leave int64 (undefined
+// territory: the documentation promises nothing there).  others is the total
+// of the present entries except the one under the key of the Put.  The size is
+// cut down to what is left of the int64 range; the sum is then exactly
+// MaxInt64, which still is above every limit but MaxInt64 itself (an evicting
+// Put).
+func fitBig(sz, limit, others int64) int64 {
+	if sz <= limit && sz > math.MaxInt64-others {
+		return math.MaxInt64 - others
+	}
+	return sz
 }
 
 // runC08 is the replay / rapid entry: it picks the instantiation.
@@ -368,6 +440,12 @@ func runC08G[K comparable, V any](c CacheCase, o *vk.Obs, kk keyKit[K], vt valKi
 	}
 	unit := c.unit()
 	limit := int64(c.Limit) * vt.scale
+	if c.BigLimit != 0 {
+		if vt.scale != 1 {
+			return "VK-INFRA a case with bigLimit needs a value kind whose size is not its length"
+		}
+		limit = c.BigLimit
+	}
 	var evlog []kv[K, V]
 	decoy := "" // set when a function that a later option replaced (or that was set on a discarded copy) is called
 	onEvict := func(k K, v V) { evlog = append(evlog, kv[K, V]{k, v}) }
@@ -420,6 +498,7 @@ func runC08G[K comparable, V any](c CacheCase, o *vk.Obs, kk keyKit[K], vt valKi
 	lastVal := map[int]Val{}
 	refused, zeroSize, varSize := 0, 0, false
 	rePut, eqPut := 0, 0
+	cutPut, hugeOne, hugeSum, bigEvict := 0, 0, 0, 0
 
 	kinds := ""
 	if c.Elem != "" || c.KElem != "" || c.Opts != "" {
@@ -427,6 +506,9 @@ func runC08G[K comparable, V any](c CacheCase, o *vk.Obs, kk keyKit[K], vt valKi
 		if vt.scale != 1 {
 			kinds += fmt.Sprintf(" (sizes are lengths: limit and sizes x%d)", vt.scale)
 		}
+	}
+	if c.BigLimit != 0 {
+		kinds += fmt.Sprintf("; the limit given to New is %d (limit %d is the scale of the key space only), size selector s = size s*%d + 0..4", c.BigLimit, c.Limit, c.Unit)
 	}
 	errf := func(i int, op COp, format string, args ...any) string {
 		return fmt.Sprintf("op#%d %s(key=%d) [limit %d, sizes %s%s]: %s", i, op.Kind, op.K, c.Limit, c.SizeMode, kinds, fmt.Sprintf(format, args...))
@@ -506,6 +588,16 @@ func runC08G[K comparable, V any](c CacheCase, o *vk.Obs, kk keyKit[K], vt valKi
 			default:
 				x = vt.mk(v)
 			}
+			if c.BigLimit != 0 && !unit {
+				if sz := fitBig(v.Size, limit, max(ref.without(op.K), dev.without(op.K))); sz != v.Size {
+					v.Size = sz
+					x = vt.mk(v)
+					cutPut++
+				}
+				if v.Size <= limit && v.Size > math.MaxInt64/2 {
+					hugeOne++
+				}
+			}
 			if v.Size != 1 {
 				varSize = true
 			}
@@ -523,6 +615,14 @@ func runC08G[K comparable, V any](c CacheCase, o *vk.Obs, kk keyKit[K], vt valKi
 				made[v.ID], last[op.K], lastVal[op.K] = x, x, v
 			} else {
 				refused++
+			}
+			if c.BigLimit != 0 && wantRef.ok {
+				if ref.total() > math.MaxInt64/2 && len(ref.list) > 1 {
+					hugeSum++
+				}
+				if len(wantRef.evs) > 0 && !(len(wantRef.evs) == 1 && wantRef.evs[0].K == op.K) {
+					bigEvict++
+				}
 			}
 		case "get":
 			var x V
@@ -639,6 +739,14 @@ func runC08G[K comparable, V any](c CacheCase, o *vk.Obs, kk keyKit[K], vt valKi
 	o.ClassIf(varSize, "variable_size")
 	o.ClassIf(zeroSize > 0, "zero_size_value")
 	o.ClassIf(refused > 0, "refused_put")
+	if c.BigLimit != 0 {
+		o.Class("big_limit_" + bigClass(c.BigLimit))
+		o.ClassIf(unit, "big_limit_without_size_function")
+		o.ClassIf(hugeOne > 0, "big:one_value_above_2^62_stored")
+		o.ClassIf(hugeSum > 0, "big:several_entries_total_above_2^62")
+		o.ClassIf(bigEvict > 0, "big:put_evicts_others")
+		o.ClassIf(cutPut > 0, "big:size_cut_to_keep_the_sum_within_int64")
+	}
 	o.ClassIf(c.Limit > 12, "limit>12")
 	o.ClassIf(c.Limit >= 33, "limit>=33")
 	o.ClassIf(ref.ntEvic, "eviction_after_reorder_or_remove")
@@ -654,6 +762,23 @@ func runC08G[K comparable, V any](c CacheCase, o *vk.Obs, kk keyKit[K], vt valKi
 		o.Known("F2")
 	}
 	return ""
+}
+
+// bigClass names the region of a BigLimit.
+func bigClass(l int64) string {
+	switch {
+	case l == math.MaxInt64:
+		return "MaxInt64"
+	case l > 1<<62:
+		return "(2^62,MaxInt64)"
+	case l == 1<<62:
+		return "2^62"
+	case l >= 1<<53:
+		return "[2^53,2^62)"
+	case l >= 1<<31:
+		return "[2^31,2^53)"
+	}
+	return "<2^31"
 }
 
 // LongRunCase: one cache of limit 2 (unit sizes): Put(1), Put(2), then Gets
